@@ -60,6 +60,16 @@ CHECKS["C02"] = (
     "DESIGN.md section 3 / C02",
 )
 
+CHECKS["C06"] = (
+    "Hypothesis trees with twins; every node / ordered pair / foreign twin queried against a parent map from the spec; xpath walked",
+    "Seeded Hypothesis search over trees without repeated objects but with content- and origin-identical twins; "
+    "one Tree per case is queried for every node and every ordered pair (relative and absolute queries "
+    "interleaved in drawn orders), for drawn class arguments and for foreign twins, and compared with the parent "
+    "map derived from the spec; get_xpath is parsed, walked with getattr and checked for injectivity. Bounded.",
+    "Trusts Hypothesis and the spec-derived parent map; foreign twins are built while members are registered.",
+    "DESIGN.md section 3 / C06",
+)
+
 NOT_YET = "check not built yet in this snapshot (see DESIGN.md section 9 build order); nothing is claimed"
 
 
